@@ -559,7 +559,9 @@ where
     fn call(&mut self, req: Req) -> Self::Future {
         let config = Arc::clone(&self.config);
         let circuit = Arc::clone(&self.circuit);
-        let mut inner = self.inner.clone();
+        // Take the instance that was driven to readiness; leave a fresh clone behind
+        let clone = self.inner.clone();
+        let mut inner = std::mem::replace(&mut self.inner, clone);
 
         Box::pin(async move {
             #[cfg(feature = "tracing")]
@@ -737,7 +739,9 @@ where
     fn call(&mut self, req: Req) -> Self::Future {
         let config = Arc::clone(&self.config);
         let circuit = Arc::clone(&self.circuit);
-        let mut inner = self.inner.clone();
+        // Take the instance that was driven to readiness; leave a fresh clone behind
+        let clone = self.inner.clone();
+        let mut inner = std::mem::replace(&mut self.inner, clone);
         let fallback = Arc::clone(&self.fallback);
 
         Box::pin(async move {
